@@ -43,6 +43,20 @@ def eval_case(a5, tree, L, ctx, case, expand=False):
         if (a == b) != (got == want):
             ctx.note('oracle disagreement canon vs expansion on %r' % (case,))
             ctx.count('oracle_disagreement')
+    if out and ctx.rnd.random() < 0.03:
+        # hostile caller: edit the list that was handed out, then ask again
+        keep = list(out)
+        out.reverse()
+        out.pop()
+        out.append(0)
+        try:
+            again = a5.compact(list(L))
+            ctx.count('edit_result_and_repeat')
+            if again != keep or again is out:
+                ctx.fail('result_depends_on_edited_earlier_result', case, again=again[:20], before=keep[:20])
+        except Exception as e:
+            ctx.fail('raises', case, exc=repr(e), after_editing_earlier_result=True)
+        return keep
     return out
 
 
